@@ -433,7 +433,16 @@ structure Sys where
   sockOutOpen : Bool := true
   sockEof : Bool := false
   doneReported : Bool := false
+  raw : Bool := false             -- `NoInterpretation`: event bodies are passed through (commands are map commands)
   deriving Repr
+
+/-- `MapDownlinkRuntime::with_interpretation(.., NoInterpretation)` (map-event downlinks of the server, clients that
+decode the frames themselves): bodies pass through unchanged, the interpretation cannot fail, the write task is
+the map one. Whether it is single-frame is read from the source (`Generated.dlRawSingleFrame`). -/
+def sysInitRaw (cap node lane : Nat) : Sys :=
+  { mapFl := true, raw := true,
+    r := rinit Generated.dlRawSingleFrame true,
+    w := wsettle 12 (winit cap (Generated.dlHeaderInitLen + node + lane)) }
 
 def sysInit (mapFl : Bool) (cap node lane : Nat) (abort : Bool) : Sys :=
   { mapFl := mapFl,
@@ -581,21 +590,21 @@ def parseBit : String → Option Bool
   | "1" => some true
   | _ => none
 
-def parseOp (mapFl : Bool) (line : String) : Option Op :=
+def parseOp (mapFl : Bool) (line : String) (raw : Bool := false) : Option Op :=
   match words line with
   | ["attach", s, k] => do some (.attach (← parseBit s) (← parseBit k))
   | ["remote", "linked"] => some (.remote .linked)
   | ["remote", "synced"] => some (.remote .synced)
   | ["remote", "unlinked"] => some (.remote .unlinked)
   | ["remote", "eof"] => some .remoteEof
-  | ["remote", "ev", h] => if mapFl then none else (bytesOfHex h).map fun b => .remote (.event (.raw b))
+  | ["remote", "ev", h] => if mapFl && !raw then none else (bytesOfHex h).map fun b => .remote (.event (.raw b))
   | ["remote", "mev", "upd", k, h] =>
-    if mapFl then do some (.remote (.event (.upd (← k.toNat?) (← bytesOfHex h)))) else none
-  | ["remote", "mev", "rem", k] => if mapFl then k.toNat?.map fun k => .remote (.event (.rem k)) else none
-  | ["remote", "mev", "clr"] => if mapFl then some (.remote (.event .clr)) else none
-  | ["remote", "mev", "take", n] => if mapFl then n.toNat?.map fun n => .remote (.event (.take n)) else none
-  | ["remote", "mev", "drop", n] => if mapFl then n.toNat?.map fun n => .remote (.event (.drop n)) else none
-  | ["remote", "mev", "bad"] => if mapFl then some (.remote .badEvent) else none
+    if mapFl && !raw then do some (.remote (.event (.upd (← k.toNat?) (← bytesOfHex h)))) else none
+  | ["remote", "mev", "rem", k] => if mapFl && !raw then k.toNat?.map fun k => .remote (.event (.rem k)) else none
+  | ["remote", "mev", "clr"] => if mapFl && !raw then some (.remote (.event .clr)) else none
+  | ["remote", "mev", "take", n] => if mapFl && !raw then n.toNat?.map fun n => .remote (.event (.take n)) else none
+  | ["remote", "mev", "drop", n] => if mapFl && !raw then n.toNat?.map fun n => .remote (.event (.drop n)) else none
+  | ["remote", "mev", "bad"] => if mapFl && !raw then some (.remote .badEvent) else none
   | ["cmd", c, h] => if mapFl then none else do some (.cmd (← c.toNat?) (.val (← bytesOfHex h)))
   | ["mcmd", c, "upd", k, h] =>
     if mapFl then do some (.cmd (← c.toNat?) (.mp (.upd (← k.toNat?) (← bytesOfHex h)))) else none
@@ -614,6 +623,7 @@ def parseNew (line : String) : Option Sys :=
   | ["new", fl, cap, node, lane, strat, _cbuf] =>
     if fl == "value" || fl == "map" then
       do some (sysInit (fl == "map") (← cap.toNat?) (← node.toNat?) (← lane.toNat?) (strat != "ignore"))
+    else if fl == "raw" then do some (sysInitRaw (← cap.toNat?) (← node.toNat?) (← lane.toNat?))
     else none
   | _ => none
 
@@ -622,7 +632,7 @@ def machineStep (s : Option Sys) (line : String) : Option Sys × String :=
   | some s0 => (some s0, "ok")
   | none => match s with
     | none => (s, "bad-op")
-    | some st => match parseOp st.mapFl line with
+    | some st => match parseOp st.mapFl line st.raw with
       | none => (s, "bad-op")
       | some op => ((sysStep st op).1, (sysStep st op).2)
 
@@ -643,7 +653,8 @@ structure MCons where
 
 structure Mon where
   started : Bool := false
-  mapFl : Bool := false
+  mapFl : Bool := false           -- event bodies are interpreted map messages (else raw bytes)
+  multi : Bool := false           -- the lane's state takes many frames (map lanes, interpreted or passed through)
   abort : Bool := true
   cons : List MCons := []
   linkedSent : Bool := false      -- the remote has sent `linked`
@@ -775,7 +786,11 @@ def checkEvent (m : Mon) (o : ObsIn) (b : Option Body) : Option String :=
             else if ns.isEmpty then
               some (if !c.sync && c.late && !m.mapFl then "f8-late-nosync-value-missed-event" else "missed-event")
             else some "wrong-event"
-          else if ns.isEmpty || ns == [.event b] then none
+          else if ns == [.event b] then none
+          else if ns.isEmpty then
+            -- still waiting for `linked`/`synced`: a multi-frame state is made of *all* the events before `synced`
+            (if m.multi && c.phase == .linked && c.sync then some "multi-frame-consumer-missed-event-while-syncing"
+             else none)
           else some "unexpected-notification"
 
 def checkSynced (m : Mon) (o : ObsIn) : Option String :=
@@ -791,7 +806,9 @@ def checkSynced (m : Mon) (o : ObsIn) : Option String :=
           if !c.sync then some (if c.late then "f8-late-nosync-unrequested-synced" else "synced-not-requested")
           else match ns with
             | [.synced] => none
-            | [.event b, .synced] => if some b == m.lastEv then none else some "synced-with-stale-state"
+            | [.event b, .synced] =>
+              if m.multi then some "multi-frame-synced-with-single-frame-state"
+              else if some b == m.lastEv then none else some "synced-with-stale-state"
             | _ => some "unexpected-notification"
         else if c.phase == .linked && c.sync then some "synced-not-delivered"
         else if ns.isEmpty then none else some "unexpected-notification"
@@ -855,7 +872,8 @@ def opWords (op : String) : List String := words op
 def Mon.step (m : Mon) (op out : String) : Mon × Option String :=
   match opWords op with
   | ["new", fl, _, _, _, strat, _] =>
-    ({ started := true, mapFl := fl == "map", abort := strat != "ignore" || fl != "map" },
+    ({ started := true, mapFl := fl == "map", multi := fl == "map" || fl == "raw",
+       abort := strat != "ignore" || fl != "map" },
      if out == "ok" then none else some "unexpected-result")
   | ws =>
     if !m.started then (m, some "op-before-new")
